@@ -114,7 +114,77 @@ def expect_upload(remote0, cwd, src_name, src_tree, src_is_file, destination, wr
     return out
 
 
+async def cwd_switch(net, hyg, plan):
+    """the same relative name means different things in different working directories: the high-level operations follow
+    the working directory at the time of the call, whatever the client looked at before"""
+    viol = []
+    mon = {"upload_tree": 0, "download_tree": 0, "recursive_list": 0, "remove_tree": 0, "cwd_switch": 1}
+    remote0 = {"/a": DIR, "/b": DIR, "/a/x": b"file-in-a", "/b/x": DIR, "/b/x/inner.txt": b"inner", "/b/x/sub": DIR,
+               "/b/y": b"only-in-b", "/keep.txt": b"keep"}
+    w = W.World(net, tree=remote0)
+    await w.start()
+    if plan["fallback"]:
+        del w.server.commands_mapping["mlsd"]
+        del w.server.commands_mapping["mlst"]
+    try:
+        c = aioftp.Client(path_io_factory=aioftp.MemoryPathIO)
+        await c.connect("127.0.0.1", 2121)
+        await c.login()
+        first, second = plan["order"]
+        rec = {}
+        for where in (first, second):
+            await c.change_directory("/" + where)
+            for probe in plan["probes"]:
+                if probe == "stat":
+                    try:
+                        rec[(where, "type-x")] = (await c.stat("x")).get("type")
+                    except aioftp.StatusCodeError:
+                        rec[(where, "type-x")] = None
+                elif probe == "kinds":
+                    rec[(where, "kinds-x")] = (await c.is_file("x"), await c.is_dir("x"))
+                elif probe == "exists":
+                    rec[(where, "exists-y")] = await c.exists("y")
+        want = {("a", "type-x"): "file", ("b", "type-x"): "dir", ("a", "kinds-x"): (True, False), ("b", "kinds-x"): (False, True),
+                ("a", "exists-y"): False, ("b", "exists-y"): True}
+        for k, v in rec.items():
+            if want[k] != v:
+                viol.append({"key": f"stale-answer-after-cwd-change:{k[1]}",
+                             "msg": f"plan {plan}: in /{k[0]} the client reports {k[1]} = {v!r}, the tree says {want[k]!r}"})
+        # act on the relative name in the second directory
+        act = plan["act"]
+        tree_want = dict(remote0)
+        try:
+            if act == "download":
+                await c.download("x", "/local", write_into=True)
+                got = {}
+                for pth in await c.path_io.list(pathlib.PurePosixPath("/local")) if await c.path_io.is_dir(pathlib.PurePosixPath("/local")) else []:
+                    got[pth.name] = "dir" if await c.path_io.is_dir(pth) else "file"
+                is_file_local = await c.path_io.is_file(pathlib.PurePosixPath("/local"))
+                mon["download_tree"] += 1
+                if second == "a" and not is_file_local:
+                    viol.append({"key": "download-wrong:cwd-switch", "msg": f"plan {plan}: download('x') in /a should give a file, local has {got}"})
+                if second == "b" and got != {"inner.txt": "file", "sub": "dir"}:
+                    viol.append({"key": "download-wrong:cwd-switch", "msg": f"plan {plan}: download('x') in /b should give the directory, local has {got}"})
+            elif act == "remove":
+                await c.remove("x")
+                mon["remove_tree"] += 1
+                for k in list(tree_want):
+                    if k == f"/{second}/x" or k.startswith(f"/{second}/x/"):
+                        tree_want.pop(k)
+        except Exception as e:
+            viol.append({"key": f"{act}-raises:cwd-switch", "msg": f"plan {plan}: {e!r}"})
+        if w.tree() != tree_want:
+            viol.append({"key": f"{act}-wrong:cwd-switch", "msg": f"plan {plan}: tree {sorted(w.tree())} expected {sorted(tree_want)}"})
+        await c.quit()
+        return viol, mon
+    finally:
+        await w.stop()
+        w.cleanup()
+
+
 async def run_plan(net, hyg, plan):
+    if plan.get("op") == "cwd_switch":
+        return await cwd_switch(net, hyg, plan)
     rng = random.Random(plan["seed"])
     viol = []
     mon = {"upload_tree": 0, "download_tree": 0, "recursive_list": 0, "remove_tree": 0}
@@ -349,5 +419,11 @@ def gen_cases(tier, seed):
         if p["src_is_file"]:
             p["tree"] = {}
             p["file_hex"] = bytes(rng.randrange(256) for _ in range(rng.choice([0, 1, 300, 9000]))).hex()
+    for order in (["a", "b"], ["b", "a"]):
+        for probes in (["stat"], ["kinds"], ["exists"], ["stat", "kinds", "exists"], []):
+            for act in ("download", "remove"):
+                for fb in (False, True):
+                    plans.append({"seed": seed, "op": "cwd_switch", "order": order, "probes": probes, "act": act, "fallback": fb,
+                                  "tree": {}, "destination": "", "write_into": False, "cwd": "/" + order[1], "src_is_file": False})
     per = 10
     return [{"plans": plans[i:i + per]} for i in range(0, len(plans), per)]
